@@ -427,4 +427,56 @@ pub(crate) mod b {
         }
         println!("BOUNDED-CASES {}", n);
     }
+
+    /// S1 / C06 (bounded stand-in): T junctions along long lines.  On horizontal and vertical lines (where boxes,
+    /// ladders and connectors meet) membership is exact at every page position.  On the two diagonals only the end
+    /// points are required to be on the line (that is how diagonal pieces join, t = 0 or 1 is exact): for interior
+    /// lattice points of long diagonals parry's projection is neither exact nor position independent (observed:
+    /// (2.5,16) on (0.5,20)-(10,1) is reported off the line at the origin and on it two cells further right) - no
+    /// rendering difference could be produced from that (4000 random diagrams x 7 shifts), so it is recorded as an
+    /// assumption, not as a finding.
+    #[test]
+    fn bounded_contains_point_long_lines() {
+        let thorough = std::env::var("VERIF_TIER").map(|v| v == "thorough").unwrap_or(false);
+        let maxlen = if thorough { 400i64 } else { 60 };
+        let offsets: [(i64, i64); 5] = [(0, 0), (2, 4), (13, 7), (100, 50), (399, 199)];
+        // directions in quarter units per step: horizontal, vertical, '/' and '\' diagonals (1 cell right = 4, 1 row = 8)
+        let dirs: [(i64, i64); 4] = [(1, 0), (0, 1), (1, 2), (1, -2)];
+        let p = |x: i64, y: i64| Point::new(x as f32 * 0.25, y as f32 * 0.25);
+        let mut n = 0u64;
+        for (dx, dy) in dirs {
+            let mut len = 4i64; // quarter units along x (or y for the vertical direction)
+            while len <= maxlen * 4 {
+                let mut k = 0;
+                while k <= len {
+                    let mut at_origin: Option<(bool, bool)> = None;
+                    for (ox, oy) in offsets {
+                        let (ax, ay) = (4 * ox + 2, 8 * oy + 4 + if dy < 0 { 2 * len } else { 0 });
+                        let (bx, by) = (ax + dx * len, ay + dy * len);
+                        let l = Line::new(p(ax, ay), p(bx, by), false);
+                        let (qx, qy) = (ax + dx * k, ay + dy * k);
+                        let (sx, sy) = if dx == 0 { (qx + 1, qy) } else { (qx, qy + 1) };
+                        let got = (l.contains_point(p(qx, qy)), l.contains_point(p(sx, sy)));
+                        if dx == 0 || dy == 0 {
+                            if got != (true, false) {
+                                println!("BOUNDED-WITNESS axis-parallel line ({},{})-({},{}) (quarter units): on-line point ({},{}) -> {}, neighbour ({},{}) -> {}",
+                                    ax, ay, bx, by, qx, qy, got.0, sx, sy, got.1);
+                                panic!("membership on horizontal / vertical lines is exact");
+                            }
+                        } else if k == 0 || k == len {
+                            let _ = at_origin.take();
+                            if !got.0 {
+                                println!("BOUNDED-WITNESS diagonal ({},{})-({},{}) at page offset ({},{}): its own end point ({},{}) is reported off the line", ax, ay, bx, by, ox, oy, qx, qy);
+                                panic!("the end points of a line are on the line");
+                            }
+                        }
+                        n += 2;
+                    }
+                    k += 1;
+                }
+                len = if len < 64 { len + 2 } else { len + 36 };
+            }
+        }
+        println!("BOUNDED-CASES {}", n);
+    }
 }
